@@ -9,6 +9,8 @@ DONE = {
  'C06': 'slashing synchronisation: booked = delegated exactly, pools within 2 units of pro-rata share, unchanged without slashing',
  'C10': 'every privileged message variant of all six contracts: no Ok path for a sender that is not the designated principal (symbolic sender/message/stored principals); two-step ownership transfer',
  'C11': 'paused hub: every variant except UpdateParams/MigrateUnbondWaitList has no Ok path for any sender; no unpause with legacy entries; queries never read the pause flag',
+ 'C14': 'reward contract: INV-RW (sum accrued <= recorded <= bank; sum balances = total) inductive over every message; claim pays whole units and keeps the fraction; index update strands < 1 unit',
+ 'C15': 'reward contract: per-step frame/settle/proportionality equalities in exact atomics + paired executions (both orders) of independent operations',
  'C17': 'dispatcher: swap offer <= held and stSei-side share after swap (oracle price), DispatchRewards keeper = floor(balance x rate), everything forwarded, order; known finding: zero-coin sends',
  'C20': 'instantiate + every update message with independently optional fields: stored fee/threshold/keeper rate <= 1, fixed denominations, omitted fields unchanged',
  'C12': 'delegation / undelegation kernels: conservation, balance bounds, termination, error exactly when request > total',
